@@ -254,6 +254,50 @@ func orderInsensitive(prog *load.Program, info *types.Info, fd *ast.FuncDecl, rs
 			}
 		}
 	}
+	// idiom 0a: counting — the body is `n++` / `n += <constant>`, possibly under one condition that does
+	// not mention n and holds no function literal or channel receive: integer addition commutes, so the
+	// count after the loop is the same in every order (the loop writes nothing else).
+	if len(rs.Body.List) == 1 {
+		st := rs.Body.List[0]
+		var cond ast.Expr
+		if is, ok := st.(*ast.IfStmt); ok && is.Init == nil && is.Else == nil && len(is.Body.List) == 1 {
+			cond, st = is.Cond, is.Body.List[0]
+		}
+		var cid *ast.Ident
+		switch x := st.(type) {
+		case *ast.IncDecStmt:
+			cid, _ = ast.Unparen(x.X).(*ast.Ident)
+		case *ast.AssignStmt:
+			if (x.Tok == token.ADD_ASSIGN || x.Tok == token.SUB_ASSIGN) && len(x.Lhs) == 1 && len(x.Rhs) == 1 && info.Types[x.Rhs[0]].Value != nil {
+				cid, _ = ast.Unparen(x.Lhs[0]).(*ast.Ident)
+			}
+		}
+		if cid != nil {
+			if v, ok := info.ObjectOf(cid).(*types.Var); ok && !v.IsField() && v.Pkg() != nil && v.Parent() != v.Pkg().Scope() {
+				b, isBasic := v.Type().Underlying().(*types.Basic)
+				condOK := true
+				if cond != nil {
+					if mentionsObj(info, cond, v) {
+						condOK = false
+					}
+					ast.Inspect(cond, func(n ast.Node) bool {
+						switch u := n.(type) {
+						case *ast.FuncLit:
+							condOK = false
+						case *ast.UnaryExpr:
+							if u.Op == token.ARROW {
+								condOK = false
+							}
+						}
+						return condOK
+					})
+				}
+				if isBasic && b.Info()&types.IsInteger != 0 && condOK {
+					return true, "counting: the body only adds a constant to a local integer, under a condition that does not read it"
+				}
+			}
+		}
+	}
 	self, _ := info.Defs[fd.Name].(*types.Func)
 	// idiom 0b: an unexported helper that hands the values (or keys) out unordered: every caller sorts
 	// what it gets by one function of each element before anything else looks at it.
